@@ -334,7 +334,7 @@ func main() {
 	}
 
 	nPure := run.Pick(20000, 2000000)
-	nLong := run.Pick(16, 400)
+	nLong := run.Pick(24, 600)
 	nDirect := run.Pick(600, 40000)
 	workers := runtime.GOMAXPROCS(0)
 	var next atomic.Uint64
